@@ -111,6 +111,12 @@ def reduceCyc (n : Nat) (p : List Int) : List Int := reduceCycGo n (p.length + 1
 def kmul (n : Nat) (a b : List Int) : List Int := reduceCyc n (karatsuba a b)
 
 
+/-- `field_norm` as polynomial.rs computes it: schoolbook squares of the even and odd parts, each reduced by
+    X^{n/2}+1, the odd one multiplied by X = [0, 1] and reduced again -/
+def fieldNormImpl (n : Nat) (f : List Int) : List Int :=
+  subL (reduceCyc (n / 2) (school (evens f) (evens f)))
+    (reduceCyc (n / 2) (school [0, 1] (reduceCyc (n / 2) (school (odds f) (odds f)))))
+
 /-- the lifting step and the Babai step exactly as math.rs computes them: `karatsuba(..).reduce_by_cyclotomic(n)` -/
 def liftStepImpl (n : Nat) (f g cF' cG' : List Int) : List Int × List Int :=
   (kmul n (lift cF') (adjoint g), kmul n (lift cG') (adjoint f))
